@@ -270,6 +270,10 @@ func (e *Engine) issue(op *COp, why string) (Result, bool, *Violation) {
 		e.St.Probes["long-lived-builder-reused"] += e.S.BuilderReused
 		e.S.BuilderReused = 0
 	}
+	if e.S.NestedBatches > 0 {
+		e.St.Probes["batch-call-inside-notification"] += e.S.NestedBatches
+		e.S.NestedBatches = 0
+	}
 	if e.S.KeptSeen > 0 {
 		e.St.Probes["query-kept-open-beyond-removal-notification"] += e.S.KeptSeen
 		e.S.KeptSeen = 0
@@ -349,7 +353,7 @@ func (e *Engine) commitSpawned(op *COp) *Violation {
 		msg := s.SpawnTrouble
 		s.SpawnTrouble = ""
 		s.Spawned = s.Spawned[:0]
-		return e.viol("unexpected-panic", op, "%s %s: a creation inside one of its notifications (world unlocked) panicked: %s", op.Kind, op.Variant, msg)
+		return e.viol("unexpected-panic", op, "%s %s: a call made inside one of its notifications (world unlocked) failed: %s", op.Kind, op.Variant, msg)
 	}
 	for _, sp := range s.Spawned {
 		if v := e.checkNewHandle(sp.H, op); v != nil {
